@@ -26,6 +26,11 @@ CHECKS = {
             "10 property classes x every value up to 4/5 tokens over a 25-token CSS-adversarial alphabet, url()/quoted-string shapes with every inner string up to 3/4 tokens, every property name up to 3/4 tokens, through safehtml.SanitizeCSS, templ.SanitizeCSS, SanitizeStyleAttributeValues (map and KeyValue) and the compiled css-component and style-attribute sinks. The emitted declaration is parsed inside '.a{...}.sentinel{color:red}' by a CSS Syntax Level 3 tokenizer/parser: one item, sentinel intact, no comment/bad-string/bad-url/at-keyword/function other than url(), URL schemes allow-listed, style element and attribute not ended.",
             "Trusts the CSS Syntax 3 reference tokenizer/parser in ref/csstok and ref/htmltok. Plain-string and SafeCSS style values are author-trusted (not listed by the statement).",
             "4.5", "enum"),
+    "C06": ("exploration",
+            "bounded exhaustive input enumeration (truncations, single-token edits, short token strings) on the real parser with recover/hang guard; reflection walk for position faithfulness",
+            "Inputs: every templ text in the repository (75 .templ files, both halves of the 50 formatter archives, docs fenced blocks), every byte prefix of them, every single-token deletion, duplication and insertion of 24 structural tokens (braces, tags, raw elements, comments, control-flow headers, quotes, multi-byte, CRLF) at every token boundary (files up to a size cap per tier), and every token string up to 3/4 tokens inside a template body. Totality: ParseString returns (30 s hang guard, 5 attempts), never panics, and every parse error position is inside the input with line/column consistent with its index. Faithfulness (inputs that also generate and gofmt): a reflection walk over the whole TemplateFile finds every Expression and every NameRange; ranges in bounds and ordered, line/column equal to an independent newline-table computation, source text at the range start has the recorded expression text as prefix, name ranges cover exactly the name.",
+            "No coverage-guided random bytes (sampling). Positions are byte based as parse.Input defines them.",
+            "4.6", "enum+tgen"),
     "C11": ("fault_enumeration",
             "exhaustive configuration x fault-point enumeration on the real handler",
             "Every component that writes up to 3/4 chunks of sizes {1,100,5000} and then fails or succeeds (directly or nested under templ.Join) x status {unset,200,201,404} x 3 content types x 5 error-handler shapes (unset, status+body, body only, nothing, own content type) x buffered/streamed, each followed by three further renders over the shared buffer pool. A recording ResponseWriter captures committed status, headers at commit time, number of WriteHeader calls and body. Buffered oracle: success = exact status/content type/full document; failure = no document byte, default 500 message or exactly what the error handler alone writes, handler receives the cause.",
